@@ -2160,6 +2160,13 @@ CHECK_ADF_ABORT( *error_return ) ;
 ADFI_check_string_length( name_in_file, ADF_MAX_LINK_DATA_SIZE, error_return );
 CHECK_ADF_ABORT( *error_return ) ;
 
+	/** the file name may be NULL or empty (a link inside this file),
+	    but not longer than the limit: refused before the node is created **/
+ADFI_check_string_length( file_name, ADF_FILENAME_LENGTH, error_return ) ;
+if( *error_return == STRING_LENGTH_TOO_BIG ) {
+   CHECK_ADF_ABORT( *error_return ) ;
+   } /* end if */
+
 ADF_Is_Link( PID, &linked_to_length, error_return ) ;
 CHECK_ADF_ABORT( *error_return ) ;
 if (  linked_to_length > 0 ) {
